@@ -219,6 +219,12 @@ func (store *Store) UpdateTransactionMetadata(ctx context.Context, id uint64, m 
 		store.updateTransactionMetadataHistogram,
 		func(ctx context.Context) (*ledger.Transaction, error) {
 
+			// A nil map is rendered as the jsonb literal 'null': `metadata || 'null'` would turn the
+			// column into an array.
+			if m == nil {
+				m = metadata.Metadata{}
+			}
+
 			updateQuery := store.db.NewUpdate().
 				Model(&ledger.Transaction{}).
 				ModelTableExpr(store.GetPrefixedRelationName("transactions")).
